@@ -59,7 +59,7 @@ def main():
                 try:
                     holds, desc = fn(req["model"])
                     st = "holds" if holds else "fails"
-                except Exception as e:
+                except BaseException as e:  # noqa: BLE001  (also CancelledError / KeyboardInterrupt / SystemExit from the code under test)
                     st, desc = classify(e)
                 out.update(status=st, desc=str(desc), model=req["model"])
         elif req["mode"] == "search":
@@ -73,7 +73,7 @@ def main():
                     n += 1
                     try:
                         holds, desc = fn(m)
-                    except Exception as e:
+                    except BaseException as e:  # noqa: BLE001  (also CancelledError / KeyboardInterrupt / SystemExit from the code under test)
                         st, desc = classify(e)
                         if st == "error":
                             out.update(status="error", desc=str(desc), model=m)
@@ -93,7 +93,7 @@ def main():
             out.update(status="fails" if still else "holds", desc=str(desc), model=req["model"])
         else:
             out.update(status="error", desc="unknown mode")
-    except Exception as e:
+    except BaseException as e:  # noqa: BLE001  (also CancelledError / KeyboardInterrupt / SystemExit from the code under test)
         out.update(status="error", desc=f"{type(e).__name__}: {e}", tb=traceback.format_exc())
     sys.stdout.write("\n@@PYVC-JSON@@\n")     # (code under test may print to stdout)
     json.dump(out, sys.stdout, default=str)
